@@ -330,7 +330,7 @@ func (g *Engine) RunHarness(name string) *Result {
 func (g *Engine) newExec(pre []int, sol *Solver) *Exec {
 	return &Exec{eng: g, tb: newTB(), sol: sol, prefix: pre, globals: map[*ssa.Global]*Obj{}, inited: map[*ssa.Package]bool{},
 		reach: map[string]bool{}, asserts: map[string]int{}, funcs: map[string]bool{}, mutex: map[string]*mutexState{},
-		recCount: map[*ssa.Function]int{}, pools: map[string][]Value{}, ufApps: map[string][]*ufApp{}, pdoms: map[*ssa.Function][]int{},
+		recCount: map[*ssa.Function]int{}, records: map[string]Value{}, pools: map[string][]Value{}, ufApps: map[string][]*ufApp{}, pdoms: map[*ssa.Function][]int{},
 		unwind: g.cfg.Unwind, unwindCut: g.cfg.UnwindCut, recLimit: g.cfg.RecLimit}
 }
 
